@@ -45,11 +45,6 @@ def chunks {β : Type} : List Nat → List β → List (List β)
   | [], _ => []
   | n :: ns, l => l.take n :: chunks ns (l.drop n)
 
-/-- `scipy.special.entr`: `-x log x` for `x > 0`, `0` at `0`, `-inf` below -/
-def entr (x : Float) : Float := if x > 0 then -x * Float.log x else if x == 0 then 0 else -(1 / 0)
-/-- binary entropy as the source writes it since 7465b1e: `entr(t) + entr(1-t)` -/
-def entropy2 (t : Float) : Float := entr t + entr (1 - t)
-
 def tableOf? : String → Option UPBTable
   | "tiles" => some upbTiles
   | "feng4x4" => some upbFeng4x4
@@ -65,7 +60,7 @@ def handle (args : List String) : String :=
       let some ab := a.toNat? | return "bad-op"
       if d < 2 then return "error:assert"
       if d > 6 then return "bad-op"
-      if !(-1 <= af && af <= 1) then return "error:assert"
+      if !(wernerInRange d af) then return "error:assert"
       return ratListStr (bipartiteEntries d (werner d (ratOfFloatBits ab)))
   | ["isotropic", d, a] => Id.run do
       let some d := d.toNat? | return "bad-op"
@@ -73,7 +68,7 @@ def handle (args : List String) : String :=
       let some ab := a.toNat? | return "bad-op"
       if d < 2 then return "error:assert"
       if d > 6 then return "bad-op"
-      if !(-1 / (d * d - 1 : Nat).toFloat <= af && af <= 1) then return "error:assert"
+      if !(isotropicInRange d af) then return "error:assert"
       return ratListStr (bipartiteEntries d (isotropic d (ratOfFloatBits ab)))
   | ["maxmixed", d] => Id.run do
       let some d := d.toNat? | return "bad-op"
@@ -83,15 +78,15 @@ def handle (args : List String) : String :=
   | ["antoine", q] => Id.run do
       let some qf := fOfBits? q | return "bad-op"
       let some qb := q.toNat? | return "bad-op"
-      if !(-2.5 <= qf && qf <= 2.5) then return "error:assert"
+      if !(antoineInRange (2.5 : Float) qf) then return "error:assert"
       return ratListStr (flatEntries 9 (antoine (5/2 : Rat) 21 2 (ratOfFloatBits qb)))
   | ["horo24", b] => Id.run do
       let some b := fOfBits? b | return "bad-op"
-      if !(b >= 0 && b <= 1) then return "error:assert"
+      if !(unitInRange b) then return "error:assert"
       return fListStr (flatEntries 8 (horodecki2x4 (7 : Float) 14 2 b (Float.sqrt (1 - b * b))))
   | ["horo33", a] => Id.run do
       let some a := fOfBits? a | return "bad-op"
-      if !(a >= 0 && a <= 1) then return "error:assert"
+      if !(unitInRange a) then return "error:assert"
       return fListStr (flatEntries 9 (horodecki3x3 (8 : Float) 16 2 a (Float.sqrt (1 - a * a))))
   | ["ketw", n] => Id.run do
       let some n := n.toNat? | return "bad-op"
@@ -144,26 +139,20 @@ def handle (args : List String) : String :=
   | ["weof", d, a] => Id.run do
       let some d := d.toNat? | return "bad-op"
       let some a := fOfBits? a | return "bad-op"
-      return bitsOfF (wernerEof (fun a => entropy2 ((1 - Float.sqrt (1 - a * a)) / 2)) d a)
+      return bitsOfF (wernerEofFull Float.sqrt Float.log 2 d a)
   | ["ieof", d, a] => Id.run do
       let some d := d.toNat? | return "bad-op"
       let some a := fOfBits? a | return "bad-op"
-      let df : Float := d.toFloat
-      let v1 : Float → Float := fun F =>
-        let g0 := (Float.sqrt F + Float.sqrt ((df - 1) * (1 - F))) ^ 2 / df
-        let g := if g0 < 1 then g0 else 1      -- `np.minimum(…, 1)`
-        entropy2 g + (1 - g) * Float.log (df - 1)
-      let v2 : Float → Float := fun F => df * Float.log (df - 1) * (F - 1) / (df - 2) + Float.log df
-      return bitsOfF (isotropicEof v1 v2 4 d a)
+      return bitsOfF (isotropicEofFull Float.sqrt Float.log 2 4 d a)
   | ["wree", d, a] => Id.run do
-      -- only the branch is modelled: "zero" on the separable range, "generic" (value of the external routine) otherwise
+      -- value of the closed form (separable branch 0; entangled branch = relative entropy to Werner(d,1/d), nats)
       let some d := d.toNat? | return "bad-op"
       let some a := fOfBits? a | return "bad-op"
-      return if wernerRee d a (1 : Float) == 0 then "zero" else "generic"
+      return s!"{if wernerRee d a (1 : Float) == 0 then "zero" else "generic"} {bitsOfF (wernerReeFull Float.log 2 d a)}"
   | ["iree", d, a] => Id.run do
       let some d := d.toNat? | return "bad-op"
       let some a := fOfBits? a | return "bad-op"
-      return if isotropicRee d a (1 : Float) == 0 then "zero" else "generic"
+      return s!"{if isotropicRee d a (1 : Float) == 0 then "zero" else "generic"} {bitsOfF (isotropicReeFull Float.log d a)}"
   | ["upbtable", name] => Id.run do
       let some t := tableOf? name | return "bad-op"
       return " ".intercalate (t.map fun party => "|".intercalate (party.map sampListStr))
